@@ -251,7 +251,7 @@ def c14(tier, seed):
 
 def c04(tier, seed):
     jobs = []
-    nm = [(1, 1), (2, 1), (2, 2), (3, 1), (3, 2), (4, 1), (4, 2)] if tier == 'quick' else [(1, 1), (2, 1), (2, 2), (3, 1), (3, 2), (3, 3), (4, 1), (4, 2), (4, 3), (5, 1)]
+    nm = [(1, 1), (2, 1), (2, 2), (3, 1), (3, 2), (4, 1)] if tier == 'quick' else [(1, 1), (2, 1), (2, 2), (3, 1), (3, 2), (3, 3), (4, 1), (4, 2), (4, 3), (5, 1)]
     for n, m in nm:
         jobs.append(J('vh_c04_table', [n, m], 'Hopcroft on an arbitrary %d-state %d-letter table' % (n, m), cost=(n ** (n * m)) * 2 ** n))
     jobs += built_jobs(tier, [2, 3])
@@ -354,7 +354,7 @@ def c19(tier, seed):
 
 def c16(tier, seed):
     prs = S.pairs(tier, seed, 120)
-    ns, b = ((2,), 2) if tier == 'quick' else ((1, 2, 3, 4), 2)
+    ns, b = ((2, 3), 2) if tier == 'quick' else ((1, 2, 3, 4), 2)
     ext = 0 if tier == 'quick' else 1
     jobs = []
     for (r, s2) in prs:
